@@ -35,6 +35,8 @@ class SquidsHooks(GslHooks):
         self.rhs_calls = 0
         self.writes_system = 0
         self.system_region = None
+        self.numeric_terms = False  # user terms return concrete numbers instead of symbols (for extent sweeps)
+        self.statics = None  # optional store of function-local statics shared by several runs
 
     def tracked_record(self, rec):
         return False
@@ -74,7 +76,11 @@ class SquidsHooks(GslHooks):
             short = nm.split('::')[-1]
             self.hook_calls.append((short, tuple(vals)))
             tag = '%s[%s]' % (short, ','.join(pkey(v) for v in vals))
-            c, reg = make_suv(tag, self.nsun, tag + '_')
+            if self.numeric_terms:
+                # extent sweeps do not need the values: concrete numbers keep the expressions small
+                c, reg = make_suv(tag, self.nsun, tag + '_', content=lambda k, h=(hash(tag) % 7): Poly.const(0.125 * (k + 1 + h)))
+            else:
+                c, reg = make_suv(tag, self.nsun, tag + '_')
             return c.value
         if nm in ('squids::SQuIDS::GammaScalar', 'squids::SQuIDS::InteractionsScalar'):
             vals = [it.eval(a) for a in args]
@@ -300,7 +306,15 @@ class SquidsHooks(GslHooks):
         return NotImplemented
 
     def static_local(self, it, d):
+        # function-local statics (thread_local or not) keep their value between calls, and between solver objects, when
+        # the checker asks for it by providing a store; otherwise every call sees a first call
+        if self.statics is not None and (d['id'], id(it.unit)) in self.statics:
+            return self.statics[(d['id'], id(it.unit))]
         return NotImplemented
+
+    def static_store(self, it, d, cell):
+        if self.statics is not None and cell is not None:
+            self.statics.setdefault((d['id'], id(it.unit)), cell)
 
 
 class NotAnOrderComparison(Exception):
@@ -312,12 +326,17 @@ class OrderOracle:
     """a strict total preorder on named symbols given as a list of equivalence classes in ascending order,
     e.g. [['x0'], ['q', 'x1'], ['x2']] means x0 < q = x1 < x2.  Decides comparisons between two single symbols."""
 
-    def __init__(self, classes, strict=False):
+    def __init__(self, classes, strict=False, witness=None):
         self.rank = {}
         for i, cl in enumerate(classes):
             for s in cl:
                 self.rank[s] = i
         self.strict = strict
+        # optional concrete instance of the order (symbol -> number, consistent with the classes): comparisons that are
+        # not between two plain symbols (tolerances, scaled or shifted values) are decided on that instance, which
+        # makes the run a concrete witness for the position it stands for
+        self.witness = witness
+        self.used_witness = []
 
     def sym(self, p):
         if isinstance(p, Poly):
@@ -331,10 +350,27 @@ class OrderOracle:
                         return a[1]
         return None
 
+    def numeric(self, p):
+        if isinstance(p, (int, float)):
+            return float(p)
+        if not isinstance(p, Poly) or self.witness is None:
+            return None
+        if not p.vars() <= set(self.witness):
+            return None
+        try:
+            r = p.subst({('v', k): Poly.const(v) for k, v in self.witness.items()})
+        except (ValueError, KeyError, ZeroDivisionError):
+            return None
+        return r.const_value() if r.is_const() else None
+
     def compare(self, op, a, b):
         sa, sb = self.sym(a), self.sym(b)
         if sa is None or sb is None:
-            return None
+            x, y = self.numeric(a), self.numeric(b)
+            if x is None or y is None:
+                return None
+            self.used_witness.append('%s %s %s' % (a, op, b))
+            return {'<': x < y, '>': x > y, '<=': x <= y, '>=': x >= y, '==': x == y, '!=': x != y}[op]
         ra, rb = self.rank[sa], self.rank[sb]
         return {'<': ra < rb, '>': ra > rb, '<=': ra <= rb, '>=': ra >= rb, '==': ra == rb, '!=': ra != rb}[op]
 
